@@ -362,7 +362,7 @@ def search(ctx):
 
 LEVEL_TEXT = ("Machine-checked theorems (Coq) for EVERY complexity n>=1 and EVERY duplicate-free operator basis: the pointer-array algorithm "
               "check_tree accepts a string iff it is the prefix code of a unary-binary tree (invariant proof over the parent/left/right arrays, "
-              "termination of the climbing loop, no exception), failed-prefix pruning never discards a valid shape, get_allowed_shapes(n) returns "
+              "termination of the climbing loop, no exception) and on success returns exactly the parent/left/right indexing of that tree, failed-prefix pruning never discards a valid shape, get_allowed_shapes(n) returns "
               "exactly the tree shapes with n nodes once each, and the label loops of shape_to_functions/generate_equations emit a permutation of "
               "an independently defined recursive enumeration of all labelled trees with parameters numbered in prefix order, without repeated "
               "lines. A test suite can compare sets only for the few (n, basis) it runs; the theorems cover all n and all bases.")
